@@ -13,38 +13,36 @@ def nameDollarQuirk : Bool := false
 
 /-- (rule id, format strings of its `add_error` call sites) -/
 def ruleFormats : List (String × List String) := [
-  ("invalidName", ["Invalid name \"%s\"."]),
-  ("invalidTypeName", ["Invalid type name \"%s\""]),
-  ("noQuery", ["Must provide Query type"]),
-  ("queryNotObject", ["Query must be ObjectType but got \"%s\""]),
-  ("mutationNotObject", ["Mutation must be ObjectType but got \"%s\""]),
-  ("subscriptionNotObject", ["Subscription must be ObjectType but got \"%s\""]),
-  ("notDirective", ["Expected Directive but got %r"]),
-  ("dirDupArg", ["Duplicate argument \"%s\" on directive \"@%s\""]),
-  ("dirArgNotInput", ["Expected input type for argument \"%s\" on directive \"@%s\" but got \"%s\""]),
-  ("noFields", ["Type \"%s\" must define at least one field"]),
-  ("dupField", ["Duplicate field \"%s\" on \"%s\""]),
-  ("fieldNotOutput", ["Expected output type for field \"%s\" on \"%s\" but got \"%s\""]),
-  ("dupArg", ["Duplicate argument \"%s\" on \"%s\""]),
   ("argNotInput", ["Expected input type for argument \"%s\" on \"%s\" but got \"%s\""]),
-  ("resMissingParam", ["Missing resolver parameter for argument \"%s\" on \"%s\""]),
-  ("resPosOnly", ["Resolver parameter for argument \"%s\" on \"%s\" must not be positional only"]),
-  ("resNeedsDefault", ["Resolver parameter for optional argument \"%s\" on \"%s\" must have a default"]),
-  ("resPositional", ["Resolver for \"%s\" must accept 3 positional parameters, found (%s)"]),
-  ("resExtraRequired", ["Required resolver parameter \"%s\" on \"%s\" does not match any known argument or expected positional parameter"]),
-  ("notInterface", ["Type \"%s\" can only implement interface types but got \"%s\""]),
+  ("dirArgNotInput", ["Expected input type for argument \"%s\" on directive \"%s\" but got \"%s\""]),
+  ("dirDupArg", ["Duplicate argument \"%s\" on directive \"%s\""]),
+  ("dupArg", ["Duplicate argument \"%s\" on \"%s\""]),
+  ("dupField", ["Duplicate field \"%s\" on \"%s\""]),
   ("dupInterface", ["Type \"%s\" mut only implement interface \"%s\" once"]),
+  ("enumEmpty", ["EnumType \"%s\" must at least define one value"]),
+  ("extraRequiredArg", ["Object field argument \"%s\" is of required type \"%s\" but is not provided by interface field \"%s\""]),
+  ("fieldNotOutput", ["Expected output type for field \"%s\" on \"%s\" but got \"%s\""]),
+  ("ifaceArgMissing", ["Interface field argument \"%s\" is not provided by \"%s\""]),
+  ("ifaceArgType", ["Interface field argument \"%s\" expects type \"%s\" but \"%s\" is type \"%s\""]),
   ("ifaceFieldMissing", ["Interface field \"%s\" is not implemented by type \"%s\""]),
   ("ifaceFieldType", ["Interface field \"%s\" expects type \"%s\" but \"%s\" is type \"%s\""]),
-  ("ifaceArgMissing", ["Interface field argument \"%s.%s\" is not provided by \"%s\""]),
-  ("ifaceArgType", ["Interface field argument \"%s.%s\" expects type \"%s\" but \"%s.%s\" is type \"%s\""]),
-  ("extraRequiredArg", ["Object field argument \"%s.%s\" is of required type \"%s\" but is not provided by interface field \"%s\""]),
-  ("unionEmpty", ["UnionType \"%s\" must at least define one member"]),
-  ("unionMemberNotObject", ["UnionType \"%s\" expects object types but got \"%s\""]),
+  ("inputFieldNotInput", ["Expected input type for field \"%s\" on \"%s\" but got \"%s\""]),
+  ("invalidName", ["Invalid name \"%s\"."]),
+  ("invalidTypeName", ["Invalid type name \"%s\""]),
+  ("mutationNotObject", ["Mutation must be ObjectType but got \"%s\""]),
+  ("noFields", ["Type \"%s\" must define at least one field"]),
+  ("noQuery", ["Must provide Query type"]),
+  ("notInterface", ["Type \"%s\" can only implement interface types but got \"%s\""]),
+  ("queryNotObject", ["Query must be ObjectType but got \"%s\""]),
+  ("resExtraRequired", ["Required resolver parameter \"%s\" on \"%s\" does not match any known argument or expected positional parameter"]),
+  ("resMissingParam", ["Missing resolver parameter for argument \"%s\" on \"%s\""]),
+  ("resNeedsDefault", ["Resolver parameter for optional argument \"%s\" on \"%s\" must have a default"]),
+  ("resPosOnly", ["Resolver parameter for argument \"%s\" on \"%s\" must not be positional only"]),
+  ("resPositional", ["Resolver for \"%s\" must accept 3 positional parameters, found (%s"]),
+  ("subscriptionNotObject", ["Subscription must be ObjectType but got \"%s\""]),
   ("unionDup", ["UnionType \"%s\" can only include type \"%s\" once"]),
-  ("enumEmpty", ["EnumType \"%s\" must at least define one value"]),
-  ("enumNotValue", ["Enum \"%s\" expects value to be EnumValue but got \"%s\""]),
-  ("inputFieldNotInput", ["Expected input type for field \"%s\" on \"%s\" but got \"%s\""])
+  ("unionEmpty", ["UnionType \"%s\" must at least define one member"]),
+  ("unionMemberNotObject", ["UnionType \"%s\" expects object types but got \"%s\""])
 ]
 
 /-- `_replace_types_and_directives`: `busted_cache = busted_cache or ...` in the type loop (T3 fix) -/
